@@ -500,3 +500,29 @@ Lemma defaults_tied :
   lru_default_size = C13_consts.lru_default_size_src
   /\ (lru_default_ttl_us * 1000 = C13_consts.lru_default_ttl_ns_src)%Z.
 Proof. split; reflexivity. Qed.
+
+(* ---------- lock-convoy pairs on the LRU ---------- *)
+Lemma lru_pair_check_sound size ttl pre a b at_ :
+  let c := fst (lrun (linit size ttl) pre) in
+  let c2 := fst (lstep (fst (lstep c a)) b) in
+  C13_lru_pair_check size ttl pre (snd (lrun (linit size ttl) pre)) a b at_ (lsnap c2 at_) = true.
+Proof.
+  intros c c2. unfold C13_lru_pair_check.
+  destruct ((0 <? l_size (linit size ttl))%Z && ltimes_ok pre) eqn:Hg; [|reflexivity].
+  apply andb_true_iff in Hg. destruct Hg as [Hpos Ht]. apply Z.ltb_lt in Hpos.
+  pose proof (reach_inv size ttl pre) as H. fold c in H.
+  pose proof (lrun_params pre (linit size ttl)) as [Hsz [Httl Htick]]. fold c in Hsz, Httl, Htick.
+  assert (Hi : l_tick c = N.of_nat (length pre)) by (rewrite Htick; unfold linit; cbn [l_tick]; lia).
+  pose proof (lstep_inv c _ a H) as H1. pose proof (lstep_params c a) as [Hs1 [Ht1 Hk1]].
+  pose proof (lstep_inv _ _ b H1) as H2. pose proof (lstep_params (fst (lstep c a)) b) as [Hs2 [Ht2 Hk2]].
+  fold c2 in H2, Hs2, Ht2. rewrite Hk1, Hi in H2.
+  repeat (apply andb_true_iff; split).
+  - apply (lcheck_sound_gen pre (linit size ttl) [] []); [apply LINV_init | exact Hpos | exact Ht | intros v []].
+  - apply Z.leb_le. unfold lsnap. cbn [fst].
+    assert (Hp2 : (0 < l_size c2)%Z) by (rewrite Hs2, Hs1, Hsz; exact Hpos).
+    pose proof (li_len _ _ H2 Hp2). rewrite Hs2, Hs1, Hsz in *. lia.
+  - apply orb_true_iff. left. apply forallb_forall. intros k Hk. unfold lsnap in Hk. cbn [snd] in Hk.
+    apply in_map_iff in Hk. destruct Hk as [e [<- He]]. apply filter_In in He. destruct He as [He Hl].
+    pose proof (li_touch _ _ H2 e He) as Hto. rewrite Ht2, Ht1, Httl in Hto.
+    rewrite (touched_report _ _ _ at_ Hto). exact Hl.
+Qed.
